@@ -18,8 +18,8 @@ import (
 	"runtime"
 	"sort"
 	"strconv"
+	"strings"
 	"sync"
-	"sync/atomic"
 	"testing"
 	"time"
 
@@ -50,18 +50,42 @@ type block struct {
 	events []*lib.Event
 	qc     *lib.QuorumCertificate
 	cp     *lib.Checkpoint // checkpoint of chain 1 at this height (nil: none)
+	size   string          // small | big (commit batch well above 1 MiB) | nearbig (just below 1 MiB)
+}
+
+// chain is one era of the history: the blocks by height as they are after the era's (optional) rollback. An era shares
+// the blocks up to its fork height with the era before it.
+type chain struct {
+	blocks []*block            // blocks[h], h = 1..top+1 (the last one is never written by the workload: it only continues a re-opened store); blocks[0] = nil
+	states []map[string][]byte // states[h] = state after block h
+	roots  [][]byte            // reference commitment of states[h]
+	forkAt uint64              // heights <= forkAt are shared with the previous era
+	top    uint64              // last height the workload commits in this era
+}
+
+type stepKind int
+
+const (
+	stepBlock    stepKind = iota // apply + commit block h of the era
+	stepRollback                 // close, open, Rollback(h), close, open: the era changes to era
+)
+
+type step struct {
+	kind stepKind
+	era  int
+	h    uint64
 }
 
 type workload struct {
 	Seed, Index  uint64
-	nBlocks      int
-	blocks       []*block            // blocks[h], h = 1..nBlocks+1 (the last one only continues a re-opened store); blocks[0] = nil
-	states       []map[string][]byte // states[h] = state after block h
-	roots        [][]byte            // reference commitment of states[h]
+	kind         string // plain | big | nearbig | rollback
+	eras         []*chain
+	steps        []step
+	maxHeight    uint64
 	memTable     uint64
-	settle       bool            // wait for the file system to go quiet after every commit
-	flushAfter   map[uint64]bool // explicit DB().Flush() after the commit of these heights (a sync point)
-	compactAfter map[uint64]bool // explicit CompactAll() after the commit of these heights (what MaybeCompact does periodically)
+	settle       bool         // wait for the file system to go quiet after every commit
+	flushAfter   map[int]bool // explicit DB().Flush() after the commit of these steps (a sync point)
+	compactAfter map[int]bool // explicit CompactAll() after the commit of these steps (what MaybeCompact does periodically)
 }
 
 func stateKey(i int) []byte {
@@ -70,15 +94,117 @@ func stateKey(i int) []byte {
 	return lib.JoinLenPrefix([]byte("acc"), b[:])
 }
 
+func bigKey(i int) []byte {
+	var b [4]byte
+	binary.BigEndian.PutUint32(b[:], uint32(i))
+	return lib.JoinLenPrefix([]byte("big"), b[:])
+}
+
 func hash(parts ...any) []byte {
 	h := sha256.New()
 	fmt.Fprint(h, parts...)
 	return h.Sum(nil)
 }
 
+func randBytes(r *rand.Rand, n int) []byte {
+	v := make([]byte, n)
+	for j := 0; j+8 <= n; j += 8 {
+		binary.LittleEndian.PutUint64(v[j:], r.Uint64())
+	}
+	for j := n &^ 7; j < n; j++ {
+		v[j] = byte(r.UintN(256))
+	}
+	return v
+}
+
+// genBlock generates block h of an era on top of the state prev
+func (w *workload) genBlock(r *rand.Rand, era int, h uint64, prev map[string][]byte, last *block, nKeys int, size string) (*block, map[string][]byte) {
+	cur := make(map[string][]byte, len(prev))
+	for k, v := range prev {
+		cur[k] = v
+	}
+	b := &block{h: h, size: size}
+	switch size {
+	case "big", "nearbig":
+		// one huge write set: LSS + HSS copies of n values of v bytes each plus the tree nodes = a commit batch well above
+		// (big) or just below (nearbig) 1 MiB
+		n, v := 900+r.IntN(700), 800+r.IntN(200)
+		if size == "nearbig" {
+			n, v = 420+r.IntN(60), 900
+		}
+		for i := 0; i < n; i++ {
+			k, val := bigKey(i), randBytes(r, v)
+			b.ops = append(b.ops, stateOp{Key: k, Val: val})
+			cur[string(k)] = val
+		}
+	}
+	nOps := 6 + r.IntN(40)
+	for i := 0; i < nOps; i++ {
+		k := stateKey(r.IntN(nKeys))
+		if len(cur) > nKeys && r.IntN(3) == 0 {
+			k = bigKey(r.IntN(400)) // later blocks also touch what a big block wrote
+		}
+		if _, present := cur[string(k)]; r.IntN(100) < 25 && (present || r.IntN(4) == 0) {
+			b.ops = append(b.ops, stateOp{Key: k, Del: true})
+			delete(cur, string(k))
+			continue
+		}
+		v := randBytes(r, 1+r.IntN(400))
+		if r.IntN(20) == 0 {
+			v = []byte{}
+		}
+		b.ops = append(b.ops, stateOp{Key: k, Val: v})
+		cur[string(k)] = v
+	}
+	root := sm.Root(cur)
+	nTx := r.IntN(5)
+	var lastHash []byte
+	total := uint64(nTx)
+	if last != nil {
+		lastHash, total = last.hdr.Hash, last.hdr.TotalTxs+uint64(nTx)
+	}
+	b.hdr = &lib.BlockHeader{Height: h, Hash: hash("block", w.Seed, w.Index, era, h), NetworkId: 1, Time: 1_700_000_000_000_000 + h*1_000_000 + uint64(era),
+		NumTxs: uint64(nTx), TotalTxs: total, LastBlockHash: lastHash, StateRoot: root, TransactionRoot: hash("txroot", era, h),
+		ValidatorRoot: hash("vals"), NextValidatorRoot: hash("vals"), ProposerAddress: hash("proposer", r.IntN(3))[:20]}
+	for i := 0; i < nTx; i++ {
+		sender, rcpt := hash("addr", r.IntN(4))[:20], hash("addr", r.IntN(4))[:20]
+		b.txs = append(b.txs, &lib.TxResult{Sender: sender, Recipient: rcpt, MessageType: "send", Height: h, Index: uint64(i),
+			Transaction: &lib.Transaction{MessageType: "send", Signature: &lib.Signature{PublicKey: hash("pk", sender), Signature: hash("sig", w.Seed, w.Index, era, h, i)},
+				CreatedHeight: h, Time: b.hdr.Time, Fee: 10000, Memo: fmt.Sprintf("m%d", r.IntN(1000)), NetworkId: 1, ChainId: 1},
+			TxHash: hex.EncodeToString(hash("tx", w.Seed, w.Index, era, h, i))})
+	}
+	for i, n := 0, r.IntN(3); i < n; i++ {
+		b.events = append(b.events, &lib.Event{EventType: "reward", Height: h, Reference: fmt.Sprintf("ref-%d-%d-%d", era, h, i), ChainId: 1, Address: hash("addr", r.IntN(4))[:20]})
+	}
+	b.qc = &lib.QuorumCertificate{Header: &lib.View{NetworkId: 1, ChainId: 1, Height: h, RootHeight: h, Round: uint64(r.IntN(3)), Phase: lib.Phase_PRECOMMIT_VOTE},
+		ResultsHash: hash("results", era, h), BlockHash: b.hdr.Hash, ProposerKey: hash("proposerkey", h),
+		Signature: &lib.AggregateSignature{Signature: bytes.Repeat([]byte{byte(h)}, 96), Bitmap: []byte{0x0f}}}
+	if r.IntN(2) == 0 {
+		b.cp = &lib.Checkpoint{Height: h, BlockHash: b.hdr.Hash}
+	}
+	return b, cur
+}
+
+// extend appends blocks from..to (and one continuation block) to an era
+func (w *workload) extend(r *rand.Rand, era int, c *chain, from, to uint64, nKeys int, sizes map[uint64]string) {
+	for h := from; h <= to+1; h++ {
+		var last *block
+		if h > 1 {
+			last = c.blocks[h-1]
+		}
+		size := "small"
+		if s, ok := sizes[h]; ok && h <= to {
+			size = s
+		}
+		b, st := w.genBlock(r, era, h, c.states[h-1], last, nKeys, size)
+		c.blocks, c.states, c.roots = append(c.blocks, b), append(c.states, st), append(c.roots, b.hdr.StateRoot)
+	}
+	c.top = to
+}
+
 func newWorkload(seed, index uint64) *workload {
 	r := rand.New(rand.NewPCG(seed, index))
-	w := &workload{Seed: seed, Index: index, nBlocks: 3 + r.IntN(6), flushAfter: map[uint64]bool{}, compactAfter: map[uint64]bool{}}
+	w := &workload{Seed: seed, Index: index, flushAfter: map[int]bool{}, compactAfter: map[int]bool{}}
 	// 16..64 KiB: every block's batch is a "large batch" for pebble (own flushable, WAL rotation and flush per commit);
 	// 128..512 KiB: batches are appended to the shared WAL/memtable without sync, a flush happens every few blocks
 	w.memTable = uint64(16+r.IntN(49)) << 10
@@ -87,70 +213,68 @@ func newWorkload(seed, index uint64) *workload {
 	}
 	w.settle = r.IntN(2) == 0
 	nKeys := 24 + r.IntN(40)
-	cur := map[string][]byte{}
-	w.blocks, w.states, w.roots = []*block{nil}, []map[string][]byte{{}}, [][]byte{sm.Root(cur)}
-	var lastHash []byte
-	total := uint64(0)
-	for h := uint64(1); h <= uint64(w.nBlocks)+1; h++ {
-		b := &block{h: h}
-		nOps := 6 + r.IntN(40)
-		for i := 0; i < nOps; i++ {
-			k := stateKey(r.IntN(nKeys))
-			if _, present := cur[string(k)]; r.IntN(100) < 25 && (present || r.IntN(4) == 0) {
-				b.ops = append(b.ops, stateOp{Key: k, Del: true})
-				delete(cur, string(k))
-				continue
-			}
-			v := make([]byte, 1+r.IntN(400))
-			for j := range v {
-				v[j] = byte(r.UintN(256))
-			}
-			if r.IntN(20) == 0 {
-				v = []byte{}
-			}
-			b.ops = append(b.ops, stateOp{Key: k, Val: v})
-			cur[string(k)] = v
+	nBlocks := uint64(3 + r.IntN(6))
+	sizes := map[uint64]string{}
+	switch k := r.IntN(20); {
+	case k < 3:
+		w.kind, nBlocks = "big", uint64(2+r.IntN(3))
+		sizes[uint64(1+r.IntN(int(nBlocks)))] = "big"
+	case k < 4:
+		w.kind, nBlocks = "nearbig", uint64(2+r.IntN(3))
+		sizes[uint64(1+r.IntN(int(nBlocks)))] = "nearbig"
+	case k < 9:
+		w.kind = "rollback"
+	default:
+		w.kind = "plain"
+	}
+	empty := map[string][]byte{}
+	e0 := &chain{blocks: []*block{nil}, states: []map[string][]byte{empty}, roots: [][]byte{sm.Root(empty)}}
+	w.eras = []*chain{e0}
+	if w.kind != "rollback" {
+		w.extend(r, 0, e0, 1, nBlocks, nKeys, sizes)
+		for h := uint64(1); h <= nBlocks; h++ {
+			w.steps = append(w.steps, step{kind: stepBlock, era: 0, h: h})
 		}
-		st := map[string][]byte{}
-		for k, v := range cur {
-			st[k] = v
+	} else {
+		// era 0: blocks 1..T; offline rollback to v < T; era 1: different blocks v+1..v+m
+		T := uint64(2 + r.IntN(5))
+		v := uint64(1 + r.IntN(int(T)-1))
+		m := uint64(1 + r.IntN(3))
+		w.extend(r, 0, e0, 1, T, nKeys, sizes)
+		for h := uint64(1); h <= T; h++ {
+			w.steps = append(w.steps, step{kind: stepBlock, era: 0, h: h})
 		}
-		root := sm.Root(st)
-		nTx := r.IntN(5)
-		total += uint64(nTx)
-		b.hdr = &lib.BlockHeader{Height: h, Hash: hash("block", seed, index, h), NetworkId: 1, Time: 1_700_000_000_000_000 + h*1_000_000,
-			NumTxs: uint64(nTx), TotalTxs: total, LastBlockHash: lastHash, StateRoot: root, TransactionRoot: hash("txroot", h),
-			ValidatorRoot: hash("vals"), NextValidatorRoot: hash("vals"), ProposerAddress: hash("proposer", r.IntN(3))[:20]}
-		lastHash = b.hdr.Hash
-		for i := 0; i < nTx; i++ {
-			sender, rcpt := hash("addr", r.IntN(4))[:20], hash("addr", r.IntN(4))[:20]
-			b.txs = append(b.txs, &lib.TxResult{Sender: sender, Recipient: rcpt, MessageType: "send", Height: h, Index: uint64(i),
-				Transaction: &lib.Transaction{MessageType: "send", Signature: &lib.Signature{PublicKey: hash("pk", sender), Signature: hash("sig", seed, index, h, i)},
-					CreatedHeight: h, Time: b.hdr.Time, Fee: 10000, Memo: fmt.Sprintf("m%d", r.IntN(1000)), NetworkId: 1, ChainId: 1},
-				TxHash: hex.EncodeToString(hash("tx", seed, index, h, i))})
+		e1 := &chain{blocks: append([]*block{}, e0.blocks[:v+1]...), states: append([]map[string][]byte{}, e0.states[:v+1]...), roots: append([][]byte{}, e0.roots[:v+1]...), forkAt: v}
+		w.eras = append(w.eras, e1)
+		w.extend(r, 1, e1, v+1, v+m, nKeys, sizes)
+		w.steps = append(w.steps, step{kind: stepRollback, era: 1, h: v})
+		for h := v + 1; h <= v+m; h++ {
+			w.steps = append(w.steps, step{kind: stepBlock, era: 1, h: h})
 		}
-		for i, n := 0, r.IntN(3); i < n; i++ {
-			b.events = append(b.events, &lib.Event{EventType: "reward", Height: h, Reference: fmt.Sprintf("ref-%d-%d", h, i), ChainId: 1, Address: hash("addr", r.IntN(4))[:20]})
+	}
+	for i, s := range w.steps {
+		if s.kind != stepBlock {
+			continue
 		}
-		b.qc = &lib.QuorumCertificate{Header: &lib.View{NetworkId: 1, ChainId: 1, Height: h, RootHeight: h, Round: uint64(r.IntN(3)), Phase: lib.Phase_PRECOMMIT_VOTE},
-			ResultsHash: hash("results", h), BlockHash: b.hdr.Hash, ProposerKey: hash("proposerkey", h),
-			Signature: &lib.AggregateSignature{Signature: bytes.Repeat([]byte{byte(h)}, 96), Bitmap: []byte{0x0f}}}
-		if r.IntN(2) == 0 {
-			b.cp = &lib.Checkpoint{Height: h, BlockHash: b.hdr.Hash}
+		if r.IntN(5) == 0 {
+			w.flushAfter[i] = true
 		}
-		if h <= uint64(w.nBlocks) && r.IntN(5) == 0 {
-			w.flushAfter[h] = true
+		if r.IntN(6) == 0 {
+			w.compactAfter[i] = true
 		}
-		if h <= uint64(w.nBlocks) && r.IntN(6) == 0 {
-			w.compactAfter[h] = true
-		}
-		w.blocks, w.states, w.roots = append(w.blocks, b), append(w.states, st), append(w.roots, root)
+	}
+	for _, c := range w.eras {
+		w.maxHeight = max(w.maxHeight, c.top+1)
 	}
 	return w
 }
 
 func (w *workload) String() string {
-	return fmt.Sprintf("w%d.%d(blocks=%d memtable=%dK settle=%v)", w.Seed, w.Index, w.nBlocks, w.memTable>>10, w.settle)
+	d := fmt.Sprintf("w%d.%d(%s blocks=%d", w.Seed, w.Index, w.kind, w.eras[0].top)
+	if len(w.eras) > 1 {
+		d += fmt.Sprintf(" rollback->%d then %d new", w.eras[1].forkAt, w.eras[1].top-w.eras[1].forkAt)
+	}
+	return d + fmt.Sprintf(" memtable=%dK settle=%v)", w.memTable>>10, w.settle)
 }
 
 func storeConfig() lib.Config {
@@ -333,8 +457,29 @@ func checkAbsent(st *store.Store, h uint64) error {
 	return nil
 }
 
-// verify opens the image with the real open path and checks everything; lo/hi bound the acceptable height.
-func verify(fs vfs.FS, w *workload, lo, hi uint64) (hp uint64, verr error) {
+// alt is one acceptable outcome of re-opening a crashed image: the store is on chain `era` at a height in [lo, hi] and
+// continues with block height+1 of chain `nextEra`. Normally there is one; during an offline Rollback there are two:
+// the rollback has not happened (old tip) or it has happened completely (target height) - never a mixture.
+type alt struct {
+	Era, NextEra int
+	Lo, Hi       uint64
+}
+
+func checkGhost(st *store.Store, b *block) error {
+	if got, err := st.GetBlockByHash(b.hdr.Hash); err == nil && got != nil && got.BlockHeader != nil && len(got.BlockHeader.Hash) != 0 {
+		return fmt.Errorf("block %x (height %d of a chain the store is not on) is visible by hash", head(b.hdr.Hash), b.h)
+	}
+	for _, tx := range b.txs {
+		hb, _ := hex.DecodeString(tx.TxHash)
+		if got, err := st.GetTxByHash(hb); err == nil && got != nil && got.TxHash != "" {
+			return fmt.Errorf("transaction %s (height %d of a chain the store is not on) is visible by hash", tx.TxHash[:12], b.h)
+		}
+	}
+	return nil
+}
+
+// verify opens the image with the real open path and checks everything against the acceptable outcomes
+func verify(fs vfs.FS, w *workload, alts []alt) (hp uint64, verr error) {
 	defer func() {
 		if r := recover(); r != nil {
 			buf := make([]byte, 4096)
@@ -354,17 +499,24 @@ func verify(fs vfs.FS, w *workload, lo, hi uint64) (hp uint64, verr error) {
 		return 0, fmt.Errorf("re-open path reported a fatal condition (the node would exit): %v", f)
 	}
 	hp = st.Version()
-	if hp < lo || hp > hi {
-		return hp, fmt.Errorf("re-opened at version %d, acceptable is [%d (last height made durable by an explicit flush) .. %d (last height whose Commit was called)]", hp, lo, hi)
+	var a *alt
+	for i := range alts {
+		if hp >= alts[i].Lo && hp <= alts[i].Hi {
+			a = &alts[i]
+		}
 	}
+	if a == nil {
+		return hp, fmt.Errorf("re-opened at version %d; acceptable (chain, lowest = last height made durable by an explicit flush/close, highest = last height whose Commit was called): %+v", hp, alts)
+	}
+	c, next := w.eras[a.Era], w.eras[a.NextEra]
 	// commit ids and roots
 	for v := uint64(1); v <= hp; v++ {
 		id, e := st.VerifCommitID(v)
 		if e != nil {
 			return hp, fmt.Errorf("commit id of height %d unreadable: %v", v, e)
 		}
-		if id.Height != v || !bytes.Equal(id.Root, w.roots[v]) {
-			return hp, fmt.Errorf("commit id recorded for height %d is (height %d, root %x), the reference root of that height is %x", v, id.Height, id.Root, w.roots[v])
+		if id.Height != v || !bytes.Equal(id.Root, c.roots[v]) {
+			return hp, fmt.Errorf("store re-opened at %d: commit id recorded for height %d is (height %d, root %x), the reference root of that height is %x", hp, v, id.Height, id.Root, c.roots[v])
 		}
 	}
 	// latest state
@@ -372,18 +524,18 @@ func verify(fs vfs.FS, w *workload, lo, hi uint64) (hp uint64, verr error) {
 	if e2 != nil {
 		return hp, e2
 	}
-	if d := diffState(got, w.states[hp]); d != "" {
-		return hp, fmt.Errorf("latest state after re-open at %d differs from the state committed at %d: %s", hp, hp, d)
+	if d := diffState(got, c.states[hp]); d != "" {
+		return hp, fmt.Errorf("latest state after re-open at %d differs from the state committed at %d (%d keys): %s", hp, hp, len(c.states[hp]), d)
 	}
-	if r := sm.Root(got); !bytes.Equal(r, w.roots[hp]) {
-		return hp, fmt.Errorf("reference root of the scanned state %x != root recorded for height %d %x", r, hp, w.roots[hp])
+	if r := sm.Root(got); !bytes.Equal(r, c.roots[hp]) {
+		return hp, fmt.Errorf("reference root of the scanned state %x != root recorded for height %d %x", r, hp, c.roots[hp])
 	}
 	treeRoot, e := st.Root()
 	if e != nil {
 		return hp, fmt.Errorf("Root(): %v", e)
 	}
-	if !bytes.Equal(treeRoot, w.roots[hp]) {
-		return hp, fmt.Errorf("persisted commitment tree has root %x, the commit id of height %d says %x", treeRoot, hp, w.roots[hp])
+	if !bytes.Equal(treeRoot, c.roots[hp]) {
+		return hp, fmt.Errorf("store re-opened at %d: the persisted commitment tree has root %x, the root recorded for height %d is %x", hp, treeRoot, hp, c.roots[hp])
 	}
 	st.Reset()
 	// historical state
@@ -397,33 +549,45 @@ func verify(fs vfs.FS, w *workload, lo, hi uint64) (hp uint64, verr error) {
 		if e3 != nil {
 			return hp, e3
 		}
-		if d := diffState(g, w.states[v]); d != "" {
+		if d := diffState(g, c.states[v]); d != "" {
 			return hp, fmt.Errorf("historical state as of %d (store re-opened at %d) differs: %s", v, hp, d)
 		}
 	}
 	// indexes
 	senders := map[string]int{}
+	onChain := map[*block]bool{}
 	for h := uint64(1); h <= hp; h++ {
-		if err := checkIndexed(st, w.blocks[h]); err != nil {
+		if err := checkIndexed(st, c.blocks[h]); err != nil {
 			return hp, fmt.Errorf("store re-opened at %d: %v", hp, err)
 		}
-		for _, tx := range w.blocks[h].txs {
+		onChain[c.blocks[h]] = true
+		for _, tx := range c.blocks[h].txs {
 			senders[string(tx.Sender)]++
 		}
 	}
 	for i := 0; i < 4; i++ {
-		a := hash("addr", i)[:20]
-		p, e := st.GetTxsBySender(crypto.NewAddress(a), true, lib.PageParams{PerPage: 100})
+		ad := hash("addr", i)[:20]
+		p, e := st.GetTxsBySender(crypto.NewAddress(ad), true, lib.PageParams{PerPage: 100})
 		if e != nil {
 			return hp, fmt.Errorf("GetTxsBySender: %v", e)
 		}
-		if p.TotalCount != senders[string(a)] {
-			return hp, fmt.Errorf("store re-opened at %d: sender %x has %d indexed transactions, %d were indexed up to that height", hp, a, p.TotalCount, senders[string(a)])
+		if p.TotalCount != senders[string(ad)] {
+			return hp, fmt.Errorf("store re-opened at %d: sender %x has %d indexed transactions, %d were indexed up to that height", hp, ad, p.TotalCount, senders[string(ad)])
 		}
 	}
-	for h := hp + 1; h <= uint64(w.nBlocks)+1; h++ {
+	for h := hp + 1; h <= w.maxHeight; h++ {
 		if err := checkAbsent(st, h); err != nil {
 			return hp, fmt.Errorf("store re-opened at %d: %v", hp, err)
+		}
+	}
+	// nothing of any other chain (abandoned by a rollback, or not reached yet) and nothing above hp is visible by hash
+	for _, oc := range w.eras {
+		for _, b := range oc.blocks[1:] {
+			if !onChain[b] {
+				if err := checkGhost(st, b); err != nil {
+					return hp, fmt.Errorf("store re-opened at %d: %v", hp, err)
+				}
+			}
 		}
 	}
 	// no entry of any partition carries a version above the height the store opened at
@@ -438,31 +602,31 @@ func verify(fs vfs.FS, w *workload, lo, hi uint64) (hp uint64, verr error) {
 		}
 		if v := ^binary.BigEndian.Uint64(k[len(k)-8:]); v != math.MaxUint64 && v > hp {
 			_ = it.Close()
-			return hp, fmt.Errorf("store re-opened at %d but an entry of version %d survives (key %x): a later commit is partially present", hp, v, k)
+			return hp, fmt.Errorf("store re-opened at %d but an entry of version %d survives (key %x): a later (or abandoned) commit is partially present", hp, v, k)
 		}
 	}
 	_ = it.Close()
 	// the node can continue: the model's next block from hp yields the model's next root
-	next := w.blocks[hp+1]
-	if err := applyBlock(st, next); err != nil {
+	nb := next.blocks[hp+1]
+	if err := applyBlock(st, nb); err != nil {
 		return hp, fmt.Errorf("continuing from %d: %v", hp, err)
 	}
 	root, e := st.Commit()
 	if e != nil {
 		return hp, fmt.Errorf("continuing from %d: Commit: %v", hp, e)
 	}
-	if !bytes.Equal(root, w.roots[hp+1]) || st.Version() != hp+1 {
-		return hp, fmt.Errorf("continuing from %d: Commit gave version %d root %x, expected version %d root %x", hp, st.Version(), root, hp+1, w.roots[hp+1])
+	if !bytes.Equal(root, next.roots[hp+1]) || st.Version() != hp+1 {
+		return hp, fmt.Errorf("continuing from %d: Commit gave version %d root %x, expected version %d root %x", hp, st.Version(), root, hp+1, next.roots[hp+1])
 	}
 	got, e2 = scanState(st)
 	if e2 != nil {
 		return hp, e2
 	}
-	if d := diffState(got, w.states[hp+1]); d != "" {
+	if d := diffState(got, next.states[hp+1]); d != "" {
 		return hp, fmt.Errorf("continuing from %d: state after the next block differs: %s", hp, d)
 	}
 	store.VerifPurgeBlockCache()
-	if err := checkIndexed(st, next); err != nil {
+	if err := checkIndexed(st, nb); err != nil {
 		return hp, fmt.Errorf("continuing from %d: %v", hp, err)
 	}
 	return hp, nil
@@ -472,85 +636,147 @@ func verify(fs vfs.FS, w *workload, lo, hi uint64) (hp uint64, verr error) {
 // running a workload with crash points
 
 type crashState struct {
-	c        *ev.Case
-	k        int
-	window   uint64 // height whose Commit() call was the latest when the crash point was taken (0: before the first)
-	partial  bool
-	sstOpen  bool
-	inCommit bool
+	c       *ev.Case
+	k       int
+	window  int // sequence number of the Commit()/Rollback() call that was the latest when the crash point was taken (0: before the first)
+	partial bool
+	sstOpen bool
 }
 
 type violation struct {
-	Workload       *workload `json:"-"`
 	Seed, Index    uint64
 	K              int
 	Op             string
 	Pct            int
-	Lo, Hi         uint64
+	Alts           []alt
 	Error          string
 	Image          crashfs.Image
 	ReopenedHeight uint64
 }
 
+// phase is what the workload goroutine tells the hook about where it is
+type phase struct {
+	era                      int
+	called, returned, synced uint64     // latest height whose Commit() was called / has returned / is durable (explicit flush, close, rollback)
+	inCall                   bool       // inside a Commit() or Rollback() call
+	rollback                 *[2]uint64 // inside Rollback(): {old tip, target}
+	inOpen                   bool       // inside pebble.Open of a restart
+	window                   int
+	sinceReturn              int // file-system operations since the last Commit() returned
+}
+
 type runner struct {
-	w         *workload
-	rec       *ev.Rec
-	fs        *crashfs.FS
-	called    atomic.Uint64 // latest height whose Commit() has been called
-	returned  atomic.Uint64 // latest height whose Commit() has returned
-	synced    atomic.Uint64 // latest height followed by a completed explicit DB().Flush()
-	inCommit  atomic.Bool
-	every     bool    // crash at every operation
-	sampleP   float64 // otherwise: probability outside Commit() calls
-	rng       *rand.Rand
-	states    []*crashState
-	firstOp   map[uint64]int
-	lastOp    map[uint64]int
-	viol      *violation
-	examined  int
-	maxStates int
+	w   *workload
+	rec *ev.Rec
+	fs  *crashfs.FS
+	dry bool // only count
+
+	pmu sync.Mutex
+	ph  phase
+
+	every      bool    // crash at every operation
+	pIn, pOut  float64 // otherwise: probability inside / outside a Commit() or Rollback() call
+	rng        *rand.Rand
+	states     []*crashState
+	firstOp    map[int]int
+	lastOp     map[int]int
+	nOps, nIn  int
+	viol       *violation
+	examined   int
+	maxStates  int
+	verifyTime time.Duration
+}
+
+func (r *runner) set(f func(p *phase)) {
+	if r == nil {
+		return
+	}
+	r.pmu.Lock()
+	f(&r.ph)
+	r.pmu.Unlock()
 }
 
 func (r *runner) hook(op crashfs.Op) {
-	win := r.called.Load()
-	if _, ok := r.firstOp[win]; !ok {
-		r.firstOp[win] = op.Index
+	r.pmu.Lock()
+	r.ph.sinceReturn++
+	ph := r.ph
+	r.pmu.Unlock()
+	r.nOps++
+	if ph.inCall {
+		r.nIn++
 	}
-	r.lastOp[win] = op.Index
+	if r.dry {
+		return
+	}
+	if _, ok := r.firstOp[ph.window]; !ok {
+		r.firstOp[ph.window] = op.Index
+	}
+	r.lastOp[ph.window] = op.Index
 	if r.viol != nil || r.examined >= r.maxStates {
 		return
 	}
-	inCommit := r.inCommit.Load()
-	if !r.every && !inCommit && r.rng.Float64() >= r.sampleP {
-		return
+	if !r.every {
+		// sampled: operations inside Commit()/Rollback() calls with pIn, the first operations after a call returned always
+		// (a crash right after Commit() returns), the rest with pOut
+		p := r.pOut
+		if ph.inCall {
+			p = r.pIn
+		}
+		if ph.rollback != nil || (!ph.inCall && ph.sinceReturn <= 4) {
+			p = 1
+		}
+		if r.rng.Float64() >= p {
+			return
+		}
 	}
-	lo, hi, ret := r.synced.Load(), r.called.Load(), r.returned.Load()
+	alts := []alt{{Era: ph.era, NextEra: ph.era, Lo: ph.synced, Hi: ph.called}}
+	if ph.rollback != nil {
+		alts = []alt{{Era: ph.era, NextEra: ph.era, Lo: ph.rollback[0], Hi: ph.rollback[0]}, {Era: ph.era, NextEra: ph.era + 1, Lo: ph.rollback[1], Hi: ph.rollback[1]}}
+	}
 	sstOpen := r.fs.OpenSSTsLocked() > 0
 	for mode := 0; mode < 3; mode++ {
 		pct := []int{0, 1 + r.rng.IntN(99), 100}[mode]
 		clone := r.fs.Mem.CrashClone(vfs.CrashCloneCfg{UnsyncedDataPercent: pct, RNG: rand.New(rand.NewPCG(r.w.Seed^0x9e3779b97f4a7c15, uint64(op.Index)*4+uint64(mode)))})
 		pristine := clone.CrashClone(vfs.CrashCloneCfg{}) // verification writes to the clone; keep the crash image itself for the replay artefact
 		c := r.rec.Case()
+		t0 := time.Now()
 		cacheMu.Lock()
-		hp, err := verify(clone, r.w, lo, hi)
+		hp, err := verify(clone, r.w, alts)
 		cacheMu.Unlock()
+		r.verifyTime += time.Since(t0)
 		r.examined++
 		pclass := []string{"survival=0%", "survival=1-99%", "survival=100%"}[mode]
-		c.Desc("%s k=%d op=%s/%s(%d) pct=%d window=%d returned=%d -> reopened@%d", r.w, op.Index, op.Kind, op.FileClass(), op.Size, pct, win, ret, hp)
+		c.Desc("%s k=%d op=%s/%s(%d) pct=%d era=%d call#%d returned=%d -> reopened@%d", r.w, op.Index, op.Kind, op.FileClass(), op.Size, pct, ph.era, ph.window, ph.returned, hp)
+		if err != nil && ph.inOpen && mode == 1 && strings.Contains(err.Error(), "could not open manifest file") && strings.Contains(err.Error(), "file does not exist") {
+			// pebble's own start-up: Open writes a new MANIFEST and then moves the manifest marker, relying on the marker move to
+			// sync the directory; MemFS lets every unsynced directory entry survive independently, so the new marker can survive
+			// without the manifest it names (real file systems order metadata updates of one directory). Not canopy's commit path.
+			c.Class("tolerated:pebble-open-manifest-marker-survives-without-its-manifest(MemFS-reorders-directory-entries)")
+			c.Done(false)
+			continue
+		}
 		if err != nil {
 			img, _ := crashfs.Dump(pristine, "db")
-			r.viol = &violation{Workload: r.w, Seed: r.w.Seed, Index: r.w.Index, K: op.Index, Op: fmt.Sprintf("%s %s", op.Kind, op.Name), Pct: pct, Lo: lo, Hi: hi,
+			r.viol = &violation{Seed: r.w.Seed, Index: r.w.Index, K: op.Index, Op: fmt.Sprintf("%s %s", op.Kind, op.Name), Pct: pct, Alts: alts,
 				Error: err.Error(), Image: img, ReopenedHeight: hp}
 			return
 		}
 		c.Class(pclass)
+		c.Class("workload=" + r.w.kind)
 		c.Class(fmt.Sprintf("op=%s/%s", op.Kind, op.FileClass()))
-		c.Class(fmt.Sprintf("reopened-height-minus-last-returned-commit=%+d", int64(hp)-int64(ret)))
-		c.ClassIf(inCommit, "inside-Commit()-call")
+		if ph.rollback != nil {
+			c.Class("inside-Rollback()-call")
+			c.ClassIf(hp == ph.rollback[0], "rollback-outcome=old-tip")
+			c.ClassIf(hp == ph.rollback[1], "rollback-outcome=target")
+		} else {
+			c.Class(fmt.Sprintf("reopened-height-minus-last-returned-commit=%+d", int64(hp)-int64(ph.returned)))
+			c.ClassIf(ph.inCall, "inside-Commit()-call")
+			c.ClassIf(hp < ph.returned, "unsynced-heights-lost")
+			c.ClassIf(hp > ph.returned, "in-flight-commit-visible")
+		}
+		c.ClassIf(ph.era > 0, "after-rollback(on-the-new-chain)")
 		c.ClassIf(sstOpen, "table-file-being-written(flush/compaction)")
-		c.ClassIf(hp < ret, "unsynced-heights-lost")
-		c.ClassIf(hp > ret, "in-flight-commit-visible")
-		r.states = append(r.states, &crashState{c: c, k: op.Index, window: win, partial: mode == 1, sstOpen: sstOpen, inCommit: inCommit})
+		r.states = append(r.states, &crashState{c: c, k: op.Index, window: ph.window, partial: mode == 1, sstOpen: sstOpen})
 	}
 }
 
@@ -568,64 +794,95 @@ func settleFS(fs *crashfs.FS) {
 	}
 }
 
-// play runs the workload on a fresh counting file system; with a runner the hook examines crash states
-func play(w *workload, r *runner) (nOps int, err error) {
+// play runs the workload on a fresh counting file system; the runner's hook counts (dry run) or examines crash states
+func play(w *workload, r *runner) error {
 	fs := crashfs.New()
-	log := &crashfs.Log{}
-	st, e := store.VerifOpenWithFS(fs, "db", w.memTable, storeConfig(), log)
-	if e != nil {
-		return 0, fmt.Errorf("open: %v", e)
-	}
-	base := fs.Count()
-	if r != nil {
-		r.fs = fs
-		fs.SetHook(r.hook)
-	}
-	for h := uint64(1); h <= uint64(w.nBlocks); h++ {
-		cacheMu.Lock()
-		err := applyBlock(st, w.blocks[h])
-		cacheMu.Unlock()
-		if err != nil {
-			return 0, fmt.Errorf("block %d: %v", h, err)
-		}
-		if r != nil {
-			r.called.Store(h)
-			r.inCommit.Store(true)
-		}
-		root, e := st.Commit()
-		if r != nil {
-			r.inCommit.Store(false)
-			r.returned.Store(h)
-		}
+	open := func() (*store.Store, error) {
+		st, e := store.VerifOpenWithFS(fs, "db", w.memTable, storeConfig(), &crashfs.Log{})
 		if e != nil {
-			return 0, fmt.Errorf("commit %d: %v", h, e)
+			return nil, fmt.Errorf("open: %v", e)
 		}
-		if !bytes.Equal(root, w.roots[h]) {
-			return 0, fmt.Errorf("workload commit %d: root %x, reference %x", h, root, w.roots[h])
-		}
-		if w.flushAfter[h] {
-			if e := st.DB().Flush(); e != nil {
-				return 0, fmt.Errorf("flush: %v", e)
+		return st, nil
+	}
+	st, err := open()
+	if err != nil {
+		return err
+	}
+	r.fs = fs
+	fs.SetHook(r.hook)
+	defer fs.SetHook(nil)
+	for i, s := range w.steps {
+		c := w.eras[s.era]
+		switch s.kind {
+		case stepBlock:
+			cacheMu.Lock()
+			err := applyBlock(st, c.blocks[s.h])
+			cacheMu.Unlock()
+			if err != nil {
+				return fmt.Errorf("block %d: %v", s.h, err)
 			}
-			if r != nil {
-				r.synced.Store(h)
+			r.set(func(p *phase) { p.called, p.inCall, p.window = s.h, true, p.window+1 })
+			root, e := st.Commit()
+			r.set(func(p *phase) { p.returned, p.inCall, p.sinceReturn = s.h, false, 0 })
+			if e != nil {
+				return fmt.Errorf("commit %d: %v", s.h, e)
 			}
-		}
-		if w.compactAfter[h] {
-			if e := st.CompactAll(h); e != nil {
-				return 0, fmt.Errorf("compact: %v", e)
+			if !bytes.Equal(root, c.roots[s.h]) {
+				return fmt.Errorf("workload commit %d: root %x, reference %x", s.h, root, c.roots[s.h])
 			}
-		}
-		if w.settle {
+			if w.flushAfter[i] {
+				if e := st.DB().Flush(); e != nil {
+					return fmt.Errorf("flush: %v", e)
+				}
+				r.set(func(p *phase) { p.synced = s.h })
+			}
+			if w.compactAfter[i] {
+				if e := st.CompactAll(s.h); e != nil {
+					return fmt.Errorf("compact: %v", e)
+				}
+			}
+			if w.settle {
+				settleFS(fs)
+			}
+		case stepRollback:
+			// the offline maintenance operation as cmd/cli performs it: node stopped, open, Rollback, close; then the node starts again
+			tip := st.Version()
 			settleFS(fs)
+			if e := st.Close(); e != nil {
+				return fmt.Errorf("close before rollback: %v", e)
+			}
+			r.set(func(p *phase) { p.synced = tip })
+			r.set(func(p *phase) { p.inOpen = true })
+			st, err = open()
+			r.set(func(p *phase) { p.inOpen = false })
+			if err != nil {
+				return err
+			}
+			r.set(func(p *phase) { p.rollback, p.inCall, p.window = &[2]uint64{tip, s.h}, true, p.window+1 })
+			e := st.Rollback(s.h)
+			r.set(func(p *phase) {
+				p.rollback, p.inCall, p.sinceReturn = nil, false, 0
+				p.era, p.called, p.returned, p.synced = s.era, s.h, s.h, s.h
+			})
+			if e != nil {
+				return fmt.Errorf("Rollback(%d): %v", s.h, e)
+			}
+			if e := st.Close(); e != nil {
+				return fmt.Errorf("close after rollback: %v", e)
+			}
+			r.set(func(p *phase) { p.inOpen = true })
+			st, err = open()
+			r.set(func(p *phase) { p.inOpen = false })
+			if err != nil {
+				return err
+			}
 		}
 	}
 	settleFS(fs)
 	if e := st.Close(); e != nil {
-		return 0, fmt.Errorf("close: %v", e)
+		return fmt.Errorf("close: %v", e)
 	}
-	fs.SetHook(nil)
-	return fs.Count() - base, nil
+	return nil
 }
 
 func seedFromEnv() uint64 {
@@ -659,25 +916,28 @@ func TestC09Crash(t *testing.T) {
 	}
 	start := time.Now()
 	totalOps, everyN, sampledN := 0, 0, 0
+	kinds := map[string]int{}
 	for i := 0; i < nWorkloads; i++ {
 		if time.Since(start) > budget {
 			rec.Note("stopped-early", fmt.Sprintf("wall budget reached after %d of %d workloads", i, nWorkloads))
 			break
 		}
 		w := newWorkload(seed, uint64(i))
-		n, err := play(w, nil) // dry run: count the file-system operations
-		if err != nil {
+		kinds[w.kind]++
+		dry := &runner{w: w, dry: true}
+		if err := play(w, dry); err != nil { // dry run: count the file-system operations
 			t.Fatalf("%s dry run: %v", w, err)
 		}
+		n := dry.nOps
 		totalOps += n
-		r := &runner{w: w, rec: rec, every: n <= everyMax, sampleP: 150 / float64(max(n, 1)), rng: rand.New(rand.NewPCG(seed, 1000+uint64(i))),
-			firstOp: map[uint64]int{}, lastOp: map[uint64]int{}, maxStates: 6000}
+		r := &runner{w: w, rec: rec, every: n <= everyMax, pIn: min(1, 90/float64(max(dry.nIn, 1))), pOut: min(1, 60/float64(max(n-dry.nIn, 1))),
+			rng: rand.New(rand.NewPCG(seed, 1000+uint64(i))), firstOp: map[int]int{}, lastOp: map[int]int{}, maxStates: 6000}
 		if r.every {
 			everyN++
 		} else {
 			sampledN++
 		}
-		if _, err = play(w, r); err != nil {
+		if err := play(w, r); err != nil {
 			t.Fatalf("%s: %v", w, err)
 		}
 		if r.viol != nil {
@@ -686,12 +946,13 @@ func TestC09Crash(t *testing.T) {
 		}
 		for _, s := range r.states {
 			strictlyInside := s.window > 0 && s.k > r.firstOp[s.window] && s.k < r.lastOp[s.window]
-			s.c.ClassIf(strictlyInside, "strictly-inside-commit-window")
+			s.c.ClassIf(strictlyInside, "strictly-inside-commit/rollback-window")
 			s.c.Done(s.partial && (strictlyInside || s.sstOpen))
 		}
-		rec.Note(fmt.Sprintf("workload-%d", i), fmt.Sprintf("%s: dry-run ops=%d, crash states examined=%d, mode=%s", w, n, len(r.states), map[bool]string{true: "every-operation", false: "commit-windows+sample"}[r.every]))
+		rec.Note(fmt.Sprintf("workload-%d", i), fmt.Sprintf("%s: dry-run ops=%d (inside Commit/Rollback calls %d), crash states examined=%d in %.1fs, mode=%s", w, n, dry.nIn, len(r.states), r.verifyTime.Seconds(),
+			map[bool]string{true: "every-operation", false: "calls+after-return+sample"}[r.every]))
 	}
-	rec.Note("summary", fmt.Sprintf("seed=%d workloads(every-op=%d sampled=%d) dry-run fs-operations=%d wall=%.1fs", seed, everyN, sampledN, totalOps, time.Since(start).Seconds()))
+	rec.Note("summary", fmt.Sprintf("seed=%d workloads=%v (every-op=%d sampled=%d) dry-run fs-operations=%d wall=%.1fs", seed, kinds, everyN, sampledN, totalOps, time.Since(start).Seconds()))
 }
 
 // replay re-checks a saved crash image
@@ -709,7 +970,7 @@ func replay(t *testing.T, path string) {
 		t.Fatalf("replay: %v", err)
 	}
 	w := newWorkload(v.Seed, v.Index)
-	hp, verr := verify(fs, w, v.Lo, v.Hi)
+	hp, verr := verify(fs, w, v.Alts)
 	if verr != nil {
 		t.Fatalf("%s: crash before operation %d (%s), %d%% unsynced survival, re-opened at %d: %v", w, v.K, v.Op, v.Pct, hp, verr)
 	}
